@@ -410,8 +410,6 @@ def wire_harness(prop, tier, seed, cov, log):
             runs.setdefault(sc, [0, 0])
             runs[sc][0] += len(lines); runs[sc][1] += sum(1 for l in lines if l.endswith(' ok'))
             bad = [l for l in lines if ' VIOLATION ' in l]
-            if scope:
-                continue        # the scenario's own verdicts (requests completing, server at rest) are C09's
             if bad:
                 # a wedged handler leaves process-wide gauges behind: only the first violation of a process counts
                 l = bad[0]
@@ -517,6 +515,8 @@ def race_harness(prop, tier, seed, cov, log):
                     cause = 'data-race'
                     report(cause, job, 'first hagall frames: ' + ' / '.join(dict.fromkeys(frames[:4])) + '\n' + b.strip())
             bad = [l for l in lines if ' VIOLATION ' in l]
+            if scope:
+                continue        # the scenario's own verdicts (requests completing, server at rest) are C09's
             if bad:
                 m = re.search(r'VIOLATION (\S+) :: (.*)', bad[0])
                 report(m.group(1), job, bad[0])
